@@ -68,7 +68,7 @@ Definition build_typedecl (d : typedecl) (table : gtable) (offset : nat) : res (
   | None => ROk (d, table)
   | Some name =>
       if text_eqb (id_val name) s_main then
-        let name' := ident_append name (mkerr_t (info_range (id_info name)) (EBuild MainIsNotAProcedure)) in
+        do name' <- ident_flag name (fun _ => EBuild MainIsNotAProcedure);
         ROk ({| td_doc := td_doc d; td_name := Some name'; td_ty := td_ty d; td_info := td_info d |}, table)
       else
         let documentation := get_documentation (td_doc d) in
@@ -180,7 +180,8 @@ Definition build_program (p : program) (table : gtable) (offset : nat) : res (pr
       match pe_params main with
       | [] => ROk ({| pg_decls := ds'; pg_info := pg_info p |}, table')
       | _ :: _ =>
-          let r := shift_range (info_range (id_info (pe_name main))) (fst (pe_range main)) in
+          do e <- to_error (pe_name main) (fun _ => EBuild MainMustNotHaveParameters);
+          let r := shift_range (e_s e, e_e e) (fst (pe_range main)) in
           ROk ({| pg_decls := ds';
                   pg_info := info_append (pg_info p) (mkerr_t r (EBuild MainMustNotHaveParameters)) |}, table')
       end
